@@ -7,7 +7,7 @@ from fractions import Fraction
 import numpy as np
 
 from ..common import Result, Violation, pmap, digest
-from ..harness import Sut
+from ..harness import Sut, poke_formatter
 from ..oracles import lex
 
 # ---- carriers: (name, label letter or None, domain, call) ------------------
@@ -67,6 +67,12 @@ PLAIN = [
     ("move-comment-delimiters", lambda g: g.move(x=1.5, comment="x ) ] */ **// ))(( y")),
     ("annotate-delimiters", lambda g: g.annotate("key", "*/ ) ] **//")),
     ("halt-comment", lambda g: g.emergency_halt("stop ) */ now")),
+    # line-break characters inside the text: every emitted line still ends exactly once, with the configured ending
+    ("comment-linebreaks", lambda g: g.comment("a\rb\nc\r\nd\x0be\x0cf\x85g\u2028h")),
+    ("move-comment-cr", lambda g: g.move(x=1.5, comment="x\ry")),
+    ("move-comment-crlf", lambda g: g.move(x=1.5, comment="x\r\ny\r")),
+    ("annotate-cr", lambda g: g.annotate("key", "v\rw")),
+    ("halt-comment-cr", lambda g: g.emergency_halt("stop\rnow")),
 ]
 
 
@@ -123,6 +129,7 @@ def reconfigure(g, cfg):
     g.format.set_comment_symbols(cfg["comment_symbols"])
     g.format.set_line_endings(cfg["line_endings"])
     g.rename_axis("x", cfg.get("x_axis", "X"))
+    poke_formatter(g.format)
 
 
 def run_one(cfg, call, v=None, pre=None):
